@@ -40,6 +40,7 @@ type World struct {
 	base      baselineFns
 	newMemo   map[*ssa.Function]bool
 	newSites  map[*ssa.Function][]ssa.CallInstruction
+	newRefs   map[*ssa.Function][]*ssa.Function
 	sumMemo   map[sumKey]int
 	defsMemo  map[*FuncInfo]*funcDefs
 	condAtoms map[string]map[string]bool
@@ -57,6 +58,9 @@ type FuncInfo struct {
 }
 
 func short(s string) string {
+	// `interface{}` and its alias `any` are one type
+	s = strings.ReplaceAll(s, "interface{}", "any")
+	s = strings.ReplaceAll(s, "interface {}", "any")
 	return strings.ReplaceAll(s, modPath+"/", "")
 }
 
